@@ -99,11 +99,12 @@ func ApplyInclude(ctx context.Context, workingDir string, environment types.Mapp
 						relworkingdir = r.ProjectDirectory
 
 					}
-					for _, f := range included {
-						if f == path {
-							included = append(included, path)
-							return fmt.Errorf("include cycle detected:\n%s\n include %s", included[0], strings.Join(included[1:], "\n include "))
-						}
+				}
+				// every file of the entry is loaded, not only the first one: any of them can close a cycle
+				for _, f := range included {
+					if f == path {
+						included = append(included, path)
+						return fmt.Errorf("include cycle detected:\n%s\n include %s", included[0], strings.Join(included[1:], "\n include "))
 					}
 				}
 			}
